@@ -751,3 +751,173 @@ RECIPES["C12"] = dict(mc=[mc_once, mc_drive_conc], record=record_c12, replay=rep
                       rule="goroutine programs generated by Drive_Conc (all first-use shapes of 3 goroutines x 3 language slots, all operation mixes of 2 goroutines), language slots "
                            "rotating through all ordered pairs, 1-11 replicas of each goroutine, each in a fresh process of a -race build; every return validated natively and "
                            "against the same call run alone; distinct by (operation, arguments, goroutine)")
+
+
+# --------------------------------------------------------------------------
+# C17: the update-wordlist tool, run against a local server
+import threading, http.server, unicodedata
+_gen_structs = []
+FILES = ["chinese_simplified", "chinese_traditional", "english", "french", "italian", "japanese", "korean", "spanish", "czech", "portuguese"]
+
+
+def mc_generator(tier, seed):
+    d = vlib.spec_dir()
+    n = 4 if tier == "quick" else 5
+    cfg = vlib.write_cfg(d, "Gen_run.cfg", 'SPECIFICATION Spec\nCONSTANTS MaxLines = %d Render = "ifnonempty"\nINVARIANTS Faithful NoBlankEntries TableWellFormed\nCHECK_DEADLOCK FALSE\n' % n)
+    rc, out, wall = vlib.tlc(d, "MC_Generator.tla", cfg, workers=4, timeout=600, args=["-dump", "states.dump"])
+    m = vlib.STAT_RE.findall(out)
+    if "No error has been found" not in out or not m:
+        raise Infra("MC_Generator failed:\n" + out[-2000:])
+    del _gen_structs[:]
+    for ln in open(os.path.join(d, "states.dump")):
+        if ln.startswith("input = "):
+            _gen_structs.append(json.loads(ln[8:].strip().replace("<<", "[").replace(">>", "]")))
+    res = [dict(module="MC_Generator", states=int(m[-1][0]), distinct=int(m[-1][1]), wall_s=round(wall, 1))]
+    cfg2 = 'SPECIFICATION Spec\nCONSTANTS MaxLines = 2 Render = "keep"\nINVARIANTS Faithful\nCHECK_DEADLOCK FALSE\n'
+    r = vlib.run_mc("MC_Generator", cfg2, workers=1, timeout=300, expect_violation="Faithful")
+    r["module"] = "MC_Generator[keep-blank-lines control]"
+    res.append(r)
+    return res
+
+
+def _letters():
+    pools = {
+        "latin": [chr(c) for c in list(range(0x61, 0x7B)) + list(range(0x41, 0x5B)) + list(range(0xC0, 0x17F)) if unicodedata.category(chr(c))[0] == "L"],
+        "marks": [chr(c) for c in (0x300, 0x301, 0x302, 0x303, 0x308, 0x30C, 0x327, 0x323, 0x3099, 0x309A, 0x94D, 0x93E)],
+        "hiragana": [chr(c) for c in range(0x3041, 0x3097)],
+        "hangul": [chr(c) for c in range(0xAC00, 0xD7A4, 37)] + [chr(c) for c in list(range(0x1100, 0x1113)) + list(range(0x1161, 0x1176)) + list(range(0x11A8, 0x11C3))],
+        "han": [chr(c) for c in range(0x4E00, 0x9FA6, 11)],
+        "other": ["ǅ", "ʰ", "ǈ", "ß", "ı", "İ", "ĳ", "ſ", "Ω", "я", "ж", "ﬁ", "ａ"],
+    }
+    for k, v in pools.items():
+        for ch in v:
+            assert unicodedata.category(ch)[0] in ("L", "M"), (k, hex(ord(ch)), unicodedata.category(ch))
+    return pools
+
+
+def concretise_lines(struct, rng, pools):
+    """a line structure over {"a","b","LF"} -> text: 'a' = a letter, 'b' = a letter followed by a combining mark"""
+    script = rng.choice(["latin", "hiragana", "hangul", "han", "other", "latin"])
+    out = []
+    for x in struct:
+        if x == "LF":
+            out.append("\n")
+        elif x == "a":
+            out.append(rng.choice(pools[script]))
+        else:
+            out.append(rng.choice(pools[script]) + rng.choice(pools["marks"]))
+    return "".join(out)
+
+
+def random_list(rng, pools, nlines):
+    out = []
+    for _ in range(nlines):
+        if rng.random() < 0.1:
+            out.append("")
+            continue
+        script = rng.choice(["latin", "latin", "hiragana", "hangul", "han", "other"])
+        w = "".join(rng.choice(pools[script]) + (rng.choice(pools["marks"]) if rng.random() < 0.2 else "") for _ in range(rng.randrange(1, 9)))
+        out.append(w)
+    s = "\n".join(out)
+    return s + ("\n" if rng.random() < 0.6 else "")
+
+
+class _Srv(http.server.BaseHTTPRequestHandler):
+    files = {}
+
+    def do_GET(self):
+        name = self.path.rsplit("/", 1)[-1]
+        if name in _Srv.files:
+            b = _Srv.files[name]
+            self.send_response(200)
+            self.send_header("Content-Length", str(len(b)))
+            self.end_headers()
+            self.wfile.write(b)
+        else:
+            self.send_response(404)
+            self.end_headers()
+
+    def log_message(self, *a):
+        pass
+
+
+def build_tool():
+    out = os.path.join(vlib.scratch("verif-bin-"), "update-wordlist")
+    r = subprocess.run(["go", "build", "-tags", "verif", "-o", out, "./update-wordlist"], cwd=vlib.REPO, env=vlib.GOENV, capture_output=True, text=True)
+    if r.returncode != 0:
+        raise Infra("update-wordlist does not build with -tags verif:\n" + r.stderr[-2000:])
+    return out
+
+
+def run_tool(tool, binary, port, inputs, golden, label, d):
+    """inputs: file -> bytes.  Returns Gen event lines."""
+    ind, outd = os.path.join(d, "in"), os.path.join(d, "out")
+    vlib.shutil.rmtree(ind, ignore_errors=True)
+    vlib.shutil.rmtree(outd, ignore_errors=True)
+    os.makedirs(ind)
+    os.makedirs(os.path.join(outd, "internal", "wordlist"))
+    for f, b in inputs.items():
+        open(os.path.join(ind, f + ".txt"), "wb").write(b)
+    _Srv.files = {f + ".txt": b for f, b in inputs.items()}
+    r = subprocess.run(["timeout", "120", tool], cwd=outd, env=dict(os.environ, VERIF_WORDLIST_URL="http://127.0.0.1:%d" % port), capture_output=True, text=True)
+    args, tr = os.path.join(d, "args.json"), os.path.join(d, "gen.ndjson")
+    json.dump({"indir": ind, "outdir": outd, "golden": golden, "label": label + (" tool_exit=%d" % r.returncode)}, open(args, "w"))
+    vlib.run_harness(binary, ["genparse", "-arg", args, "-out", tr], env_extra={"VERIF_REPO": vlib.REPO})
+    return vlib.read_trace(tr)
+
+
+def record_c17(binary, tier, seed):
+    rng = random.Random(seed)
+    pools = _letters()
+    tool = build_tool()
+    srv = http.server.ThreadingHTTPServer(("127.0.0.1", 0), _Srv)
+    port = srv.server_address[1]
+    threading.Thread(target=srv.serve_forever, daemon=True).start()
+    d = vlib.scratch("verif-gen-")
+    lines, runs = [], 0
+    try:
+        gold = json.load(open(os.path.join(vlib.SPEC, "data", "wordlists.json")))
+        inputs = {f: ("\n".join("".join(chr(c) for c in w) for w in gold["lists"][i]) + "\n").encode() for i, f in enumerate(FILES)}
+        lines += run_tool(tool, binary, port, inputs, True, "golden", d)
+        runs += 1
+        structs = [s for s in _gen_structs]
+        rng.shuffle(structs)
+        nstruct = 12 if tier == "quick" else 200
+        for k in range(nstruct):
+            inputs = {f: concretise_lines(structs[(k * 10 + i) % len(structs)], rng, pools).encode() for i, f in enumerate(FILES)}
+            lines += run_tool(tool, binary, port, inputs, False, "structure", d)
+            runs += 1
+        nbig = 7 if tier == "quick" else 100
+        for k in range(nbig):
+            inputs = {f: random_list(rng, pools, rng.choice([0, 1, 2, 10, 100, 2048, 5000])).encode() for f in FILES}
+            lines += run_tool(tool, binary, port, inputs, False, "random", d)
+            runs += 1
+    finally:
+        srv.shutdown()
+    return lines, runs, {"tool_runs": runs, "line_structures_available": len(_gen_structs)}
+
+
+def replay_c17(path, binary):
+    rp = json.load(open(path))
+    ev = next((e for e in rp["unit"] if e.get("op") == "Gen"), None)
+    if ev is None:
+        raise Infra("C17 replay file has no Gen event")
+    tool = build_tool()
+    srv = http.server.ThreadingHTTPServer(("127.0.0.1", 0), _Srv)
+    threading.Thread(target=srv.serve_forever, daemon=True).start()
+    try:
+        text = "".join(chr(u) if u >= 0 else "?" for u in ev["input"]).encode()
+        d = vlib.scratch("verif-gen-")
+        lines = run_tool(tool, binary, srv.server_address[1], {f: text for f in FILES}, False, "replay", d)
+    finally:
+        srv.shutdown()
+    v = vlib.validate(lines, ["C17"], shards=1)
+    mine = [b for b in v.bad if b[1] == "C17"]
+    return (len(mine) == 0, "served the recorded input for all ten targets: %d Gen events, %d failing" % (len(lines) // 2, len(mine)))
+
+
+RECIPES["C17"] = dict(mc=[mc_generator], record=record_c17, replay=replay_c17, props=["C17"],
+                      speaks=lambda e: e.get("op") == "Gen",
+                      rule="the real update-wordlist tool (built with -tags verif) run against a local server: the golden lists (output must equal golden and committed lists), "
+                           "line structures enumerated by MC_Generator (blank lines, trailing LF or not) concretised with letters and marks of Latin/Hiragana/Hangul/Han/other scripts, "
+                           "random lists of 0..5000 lines; outputs parsed with go/parser and type-checked; distinct by (target file, input)")
